@@ -6,7 +6,7 @@ D = {
  "C05_A": ("caught", "quick", "./check C05: 8 of 9 instances fail (e.g. c05_bs_n4_m2 'Complete reported but the pattern does not occur'); replays natively"),
  "C05_B": ("missed", "-", "Occ::get's k > 64 branch needs n >= 66 symbolic bytes; every such C04 instance timed out or ran out of memory (DESIGN 1.2 item 4), and C05 is compositional (exact occ by definition) so it never executes Occ::get"),
  "C08_A": ("caught", "quick", "./check C08: c08_bndm_fix_aaa_n6 / c08_bndm_fix_acag_n6 (concrete pattern x all texts) report a missing occurrence; replays natively. The fully symbolic BNDM instances (m <= 2) cannot see it (needs a bordered proper prefix, m >= 3)"),
- "C08_B": ("missed", "-", "quick and the fib/ruler thorough families pass with the change applied (they have at most two nested borders on the matched prefixes the text can reach). The pattern family with three nested borders (c08_kmp_fix_nest_n12, 985 s) was added to the thorough tier because of this change; see DESIGN 10.2 for whether it reports it"),
+ "C08_B": ("caught", "thorough", "./check C08 --tier thorough: c08_kmp_fix_nest_n12 (concrete pattern abaabaa with three nested borders x all texts of length 12 over {a,b,c}) reports a missing occurrence; replays natively. The quick tier and the fib/ruler families pass with the change applied; the nest family was added because of this change"),
  "C09_A": ("missed", "-", "the change is only reachable through MyersBuilder (text wildcards); MyersBuilder::new() constructs a std HashMap whose RandomState needs a syscall that Kani does not support (harness c09_myers_u8_wild_*: unsupported construct), so the builder path is not decided"),
  "C09_B": ("missed", "-", "needs long::Myers::find_all_end with >= 2 full blocks; that entry point exhausts memory at m=9,n=1 and is listed as not decided; the long distance()/find_best_end() instances are unaffected by the change and pass"),
  "C17_A": ("caught", "quick", "./check C17: c17_rank_n33_k1 'rank_1 differs from naive count'; replays natively"),
